@@ -165,11 +165,17 @@ CHECKS = {
                  'of writing is enumerated completely per batch (240 plans); seeded lists of 0-8 transfers with colliding user/path '
                  'concatenations, non-ASCII names, legacy pickles (no abort_reason, _offset, foreign keys) and write / mutate / remove '
                  '/ write sequences; the first client is abandoned without stop() (process end after the last write) or stopped; a '
-                 'new client loads the same directory. Oracle: set equality with the last durable image, field equality, no '
-                 'in-progress state, cleared remote-queue marks, loaded transfers notify listeners and accept operations.'),
+                 'new client loads the same directory. Live shape (checks/c17_live.py): a real download / upload against a scripted '
+                 'transfer peer, the cache made durable at the k-th state notification (explicit write_cache or graceful stop(); '
+                 'k = 0..6 enumerated per batch for both directions) and the process killed at an exact instant (SystemExit raised '
+                 'from a loop callback: no finally of the dying process runs, open files lose their buffers), then a fresh loop, '
+                 'server, peer and client on the same cache and download directories. Oracle: set equality with the last durable '
+                 'image, field equality, no in-progress state, cleared remote-queue marks, loaded transfers notify listeners and '
+                 'accept operations; in the live shape loaded QUEUED/INCOMPLETE transfers finish byte-identically within 900 s.'),
         'design_ref': 'DESIGN.md section 3 (C17)',
-        'note': ('crash = abandoning the first client object after the last cache write (the cache is only written by explicit '
-                 'write/stop, so the durable image is exactly the last write); live scheduling after restart (C17.schedule) is not judged'),
+        'note': ('the cache is only written by explicit write_cache()/stop(), so the durable image is exactly the last write; in the '
+                 'synthetic shape a crash is abandoning the first client object; a file whose last bytes were still buffered when '
+                 'the cache said "all bytes arrived" is outside what is judged'),
         'technique': 'deterministic simulation of process end at every persisted state (enumerated) + reload in a fresh client and reference-image comparison',
     },
     'C02': {
